@@ -215,7 +215,9 @@ def rand_sessions(rng, net, nmax=7, horizon=30, bkinds=("ideal", "l2c", "l2s"), 
             continue
         busy[st] = d
         req = rng.choice([0.0005, 0.02, 0.3, 1, 3, 8, 25, 60])
-        if rng.random() < 0.04:
+        if big:
+            req = 1e5  # probe sessions: never satisfied, never battery-limited
+        elif rng.random() < 0.04:
             req = 0.0  # a car that plugged in without needing charge (kWhDelivered == 0 in the data)
         if sid_style == "x":
             sid = f"x{k}"
@@ -326,7 +328,9 @@ def rand_scripted(rng, **kw):
 def rand_sorted(rng, **kw):
     d = {"kind": "sorted", "algo": rng.choice(["greedy", "rr"]), "sort": rng.choice(SORTS),
          "est": rng.choice([None, None, "rampdown", "fixed"]), "unint": rng.random() < 0.4,
-         "inc": rng.choice([0.1, 0.5, 1]), "over": rng.random() < 0.08}
+         "inc": rng.choice([0.1, 0.5, 1]), "over": rng.random() < 0.08,
+         # half of the callers leave out every option whose value is the documented default (the defaults are part of the API)
+         "terse": rng.random() < 0.5}
     d.update(kw)
     return d
 
